@@ -58,6 +58,10 @@ func (t *tracer) run(ctx context.Context) {
 	var termination sync.Once
 	defer close(t.done)
 
+	// cancellation is acted upon once; afterwards this case must not stay ready,
+	// or the loop would spin until the last sender is done
+	cancelled := ctx.Done()
+
 	for {
 		select {
 		case sch := <-t.subscription:
@@ -86,7 +90,8 @@ func (t *tracer) run(ctx context.Context) {
 			for _, subscriber := range t.subscribers {
 				subscriber <- trace
 			}
-		case <-ctx.Done():
+		case <-cancelled:
+			cancelled = nil
 			// Start a termination waiting routine (only once)
 			termination.Do(func() {
 				go func() {
